@@ -199,6 +199,9 @@ var c10Entries = []int{EPlain, EBytes, EString, EReader, EWriter, EDirect}
 var CurrentSite string
 
 func c10Case(env *Env, tape *sim.Tape) *CaseOut {
+	if tape.Draw(16) == 0 {
+		return c10TokenBuffer(env, tape)
+	}
 	out := &CaseOut{}
 	di := tape.Draw(len(env.Corpus))
 	doc := env.Corpus[di]
